@@ -36,17 +36,32 @@ def run_N1(chk):
     chk.extra["knob_reads"] = n
 
 
+def _rename(node, ren):
+    import copy
+
+    class R(ast.NodeTransformer):
+        def visit_Name(self, n):
+            return ast.Name(id=ren[n.id], ctx=n.ctx) if n.id in ren else n
+    return R().visit(copy.deepcopy(node))
+
+
 def run_N23(chk):
     """N2/N3: the knob only selects among kernels that are handed the same operands and bind the same result triple;
-    all bookkeeping of the result (n, mfs, hfs, masks, trans) is outside the dispatch"""
+    all bookkeeping of the result (n, mfs, hfs, masks, trans) is outside the dispatch.  Structural: local names are read off
+    the code (dispatch targets, final _replace keywords), temporaries are inlined."""
     prog = chk.prog
     chk.rule("N2", "the policy only selects a kernel: branches bind the same results from the same operands; unknown values raise", floor=6)
     chk.rule("N3", "charge, fusion metadata and masking of a contraction are computed outside the policy dispatch", floor=6)
     f = prog.func(CON, "tensordot")
     fn = f.node
-    chain = [n for n in fn.body if isinstance(n, ast.If) and "tensordot_policy" in A.text(n.test)]
+    inl = A.Inliner(fn)
+
+    def reads_policy(e):
+        return any(isinstance(x, ast.Attribute) and x.attr == "tensordot_policy" for x in ast.walk(inl.expand(e)))
+    chain = [n for n in fn.body if isinstance(n, ast.If) and reads_policy(n.test)]
     chk.require(len(chain) == 1, "tensordot: policy dispatch chain not found")
     node = chain[0]
+    inside = set(map(id, ast.walk(node)))
     branches = []
     cur = node
     while True:
@@ -60,91 +75,144 @@ def run_N23(chk):
     targets = set()
     kernels = []
     for test, body in branches:
-        t = test
-        ok_test = isinstance(t, ast.Compare) and isinstance(t.ops[0], ast.Eq) and A.text(t.left).endswith(".tensordot_policy") \
-            and isinstance(t.comparators[0], ast.Constant)
-        chk.verdict("N2", (f, t), t, True if ok_test else False, "tensordot: the dispatch test is not `config.tensordot_policy == <literal>`")
+        t = inl.expand(test)
+        ok_test = isinstance(t, ast.Compare) and len(t.ops) == 1 and isinstance(t.ops[0], ast.Eq) and (
+            (A.text(t.left).endswith(".tensordot_policy") and isinstance(t.comparators[0], ast.Constant)) or
+            (A.text(t.comparators[0]).endswith(".tensordot_policy") and isinstance(t.left, ast.Constant)))
+        chk.verdict("N2", (f, test), test, True if ok_test else False, "tensordot: the dispatch test is not `config.tensordot_policy == <literal>`")
         if ok_test:
-            policies.append(t.comparators[0].value)
+            policies.append(t.comparators[0].value if isinstance(t.comparators[0], ast.Constant) else t.left.value)
         ok_body = len(body) == 1 and isinstance(body[0], ast.Assign) and isinstance(body[0].value, ast.Call)
         chk.verdict("N2", (f, body[0]), body[0], True if ok_body else False,
                     "tensordot: a policy branch does more than bind the result of one kernel call")
         if ok_body:
             targets.add(A.text(body[0].targets[0]))
-            kernels.append(body[0].value)
-    chk.verdict("N2", (f, node), "all branches bind the same result tuple", True if len(targets) == 1 and targets == {"(data, struct_c, slices_c)"} else False,
+            kernels.append(body[0])
+    chk.require(len(kernels) >= 2, "tensordot: fewer than two policy branches")
+    same_t = len(targets) == 1 and isinstance(kernels[0].targets[0], ast.Tuple) and len(kernels[0].targets[0].elts) == 3
+    chk.verdict("N2", (f, node), "all branches bind the same (data, struct, slices) triple", True if same_t else False,
                 f"tensordot: policy branches bind different results {sorted(targets)}")
     chk.verdict("N2", (f, node), "unknown policy raises", True if tail and isinstance(tail[0], ast.Raise) else False,
                 "tensordot: an unrecognised tensordot_policy does not raise")
-    # same operands in the same roles
-    sigs = []
-    for k in kernels:
-        args = [A.text(a) for a in k.args]
-        sigs.append(args[:6])
-    same = all(s == ["a", "b", "nout_a", "nin_a", "nin_b", "nout_b"] for s in sigs)
-    chk.verdict("N2", (f, node), f"kernels receive (a, b, nout_a, nin_a, nin_b, nout_b): {[A.call_name(k) for k in kernels]}", True if same else False,
+    # same operands in the same roles: the first six arguments agree between all kernels and are the two operands followed by
+    # their (outgoing, contracted) / (contracted, outgoing) native leg tuples
+    sigs = [[A.text(a) for a in k.value.args[:6]] for k in kernels]
+    same = all(s_ == sigs[0] for s_ in sigs) and len(sigs[0]) == 6 and sigs[0][:2] == f.params[:2]
+    chk.verdict("N2", (f, node), f"kernels receive the same six operands {sigs[0]}: {[A.call_name(k.value) for k in kernels]}", True if same else False,
                 f"tensordot: the kernels are not called with the same operands in the same roles: {sigs}")
-    # N3: bookkeeping outside
-    for name in ("n_c", "s_c", "mfs_c", "hfs_c"):
-        defs = [n for n in A.walk_local(fn, include_self=False) if isinstance(n, (ast.Assign, ast.AugAssign)) and
-                A.text(n.targets[0] if isinstance(n, ast.Assign) else n.target) == name]
-        chk.require(defs, f"tensordot: definition of {name} not found")
-        inside = [d for d in defs if d in list(ast.walk(node))]
-        chk.verdict("N3", (f, defs[0]), f"{name} defined outside the dispatch", True if not inside else False,
-                    f"tensordot: `{name}` is computed inside a policy branch: the result's {name} depends on the performance knob")
-    mask_if = [n for n in fn.body if isinstance(n, ast.If) and A.text(n.test) == "mask_needed"]
+    # N3: bookkeeping outside.  Every name that feeds the final _replace (other than the kernel's triple) is defined outside the dispatch
+    me = f.params[0]
+    ret = [r for r in A.returns_of(fn) if r.value is not None and isinstance(r.value, ast.Call) and A.text(r.value.func) == f"{me}._replace"]
+    chk.require(ret, "tensordot: final _replace(...) not found")
+    kws = {k.arg: k.value for k in ret[-1].value.keywords}
+    triple = [A.text(e) for e in kernels[0].targets[0].elts] if same_t else []
+    want_from_kernel = {"data": 0, "struct": 1, "slices": 2}
+    ok = set(kws) == {"data", "struct", "slices", "mfs", "hfs", "trans"} and A.text(kws.get("trans")) == "None" and bool(triple) and \
+        all(A.text(kws[k]) == triple[i] for k, i in want_from_kernel.items())
+    chk.verdict("N3", (f, ret[-1]), ret[-1].value, True if ok else False,
+                f"tensordot: the result is not assembled from the kernel's (data, struct, slices), policy-independent mfs/hfs and trans=None: "
+                f"{ {k: A.text(v) for k, v in kws.items()} }")
+    b = A.local_bindings(fn)
+
+    def defs_outside(name, seen=()):
+        """all definitions of `name` (and, transitively, of the locals they use) lie outside the dispatch"""
+        if name in seen or name in f.params and name not in b:
+            return True
+        for st, v, k in b.get(name, []):
+            if id(st) in inside:
+                return False
+            if v is not None:
+                for x in ast.walk(v):
+                    if isinstance(x, ast.Name) and isinstance(x.ctx, ast.Load) and x.id in b and x.id not in triple and x.id != name:
+                        if not defs_outside(x.id, seen + (name,)):
+                            return False
+        return True
+    for kw in ("mfs", "hfs"):
+        v = kws.get(kw)
+        nm = A.text(v) if v is not None else "?"
+        okk = isinstance(v, ast.Name) and defs_outside(v.id)
+        chk.verdict("N3", (f, ret[-1]), f"{kw}={nm} defined outside the dispatch", True if okk else False,
+                    f"tensordot: `{nm}` ({kw} of the result) is computed inside a policy branch (or from something that is): the result's "
+                    f"{kw} depends on the performance knob")
+    # total charge: after the dispatch the kernel's struct gets n=<policy-independent charge of a and b>
+    post = [n for n in fn.body if isinstance(n, ast.Assign) and triple and A.text(n.targets[0]) == triple[1] and n.lineno > node.lineno
+            and isinstance(n.value, ast.Call) and A.text(n.value.func) == f"{triple[1]}._replace" and A.kwarg(n.value, "n") is not None]
+    okc = False
+    if post:
+        nv = A.kwarg(post[0].value, "n")
+        e = inl.expand(nv)
+        okc = (not isinstance(nv, ast.Name) or defs_outside(nv.id)) and isinstance(e, ast.Call) and A.callee_attr(e) == "add_charges" \
+            and {A.text(a_) for a_ in e.args} == {f"{f.params[0]}.struct.n", f"{f.params[1]}.struct.n"}
+    chk.verdict("N3", (f, post[0] if post else fn), post[0] if post else "struct = struct._replace(n=...)", True if okc else False,
+                "tensordot: the total charge is not set (after the dispatch) to the policy-independent sum of the operands' charges")
+    # the kernel's signature argument (if any) is policy independent as well
+    for k in kernels:
+        for a_ in k.value.args[6:]:
+            if isinstance(a_, ast.Name):
+                chk.verdict("N3", (f, k), f"extra kernel argument `{a_.id}` defined outside the dispatch", True if defs_outside(a_.id) else False,
+                            f"tensordot: `{a_.id}` handed to {A.call_name(k.value)} is computed inside the dispatch")
+    # masking precedes the dispatch
+    verdicts = set()
+    for n in A.walk_local(fn):
+        if isinstance(n, ast.Assign) and isinstance(n.value, ast.Call) and A.call_name(n.value) == "_unpack_trans_test_axes_pair" \
+                and isinstance(n.targets[0], ast.Tuple) and isinstance(n.targets[0].elts[0], ast.Name):
+            verdicts.add(n.targets[0].elts[0].id)
+    mask_if = [n for n in fn.body if isinstance(n, ast.If) and isinstance(n.test, ast.Name) and n.test.id in verdicts]
     chk.verdict("N3", (f, mask_if[0] if mask_if else fn), "masking precedes the dispatch", True if mask_if and mask_if[0].lineno < node.lineno else False,
                 "tensordot: the fusion-mismatch masking is not applied before (and independently of) the policy dispatch")
-    ret = [r for r in A.returns_of(fn) if r.value is not None and isinstance(r.value, ast.Call) and A.text(r.value.func) == "a._replace"]
-    chk.require(ret, "tensordot: final a._replace(...) not found")
-    kws = {k.arg: A.text(k.value) for k in ret[-1].value.keywords}
-    want = {"data": "data", "struct": "struct_c", "slices": "slices_c", "mfs": "mfs_c", "hfs": "hfs_c", "trans": "None"}
-    chk.verdict("N3", (f, ret[-1]), ret[-1].value, True if kws == want else False,
-                f"tensordot: the result is not assembled from (data, struct_c, slices_c) of the kernel and the policy-independent "
-                f"(mfs_c, hfs_c): {kws}")
-    post = [n for n in fn.body if isinstance(n, ast.Assign) and A.text(n.targets[0]) == "struct_c" and n.lineno > node.lineno]
-    chk.verdict("N3", (f, post[0] if post else fn), post[0] if post else "struct_c = struct_c._replace(n=n_c)",
-                True if post and A.text(post[0].value) == "struct_c._replace(n=n_c)" else False,
-                "tensordot: the total charge is not set (after the dispatch) to the policy-independent n_c")
-    # sibling agreement of the three kernels
-    for kname in ("_tensordot_f2m", "_tensordot_fc", "_tensordot_nf"):
-        k = prog.func(CON, kname)
+    # sibling agreement of the three kernels: the blocks to contract are selected by one call of _common_inds with the same arguments
+    knames = [A.call_name(k.value) for k in kernels]
+    kfs = [prog.func(CON, kn) for kn in knames]
+    cis = []
+    for k in kfs:
         ci = [c for c in A.calls(k.node) if A.call_name(c) == "_common_inds"]
-        ok = len(ci) == 1 and [A.text(a) for a in ci[0].args] == ["a.struct.t", "b.struct.t", "nin_a", "nin_b", "a.ndim_n", "b.ndim_n", "a.config.sym.NSYM"]
-        chk.verdict("N2", (k, ci[0] if ci else k.node), ci[0] if ci else kname, True if ok else False,
-                    f"{kname}: blocks to contract are not selected by _common_inds(a.struct.t, b.struct.t, nin_a, nin_b, ...) like in its siblings")
-    # orders
-    fc, nf, f2m = (prog.func(CON, n) for n in ("_tensordot_fc", "_tensordot_nf", "_tensordot_f2m"))
-    for k in (fc, nf):
-        t = A.text(k.node)
-        ok = "order_a = nout_a + nin_a" in t and "order_b = nin_b + nout_b" in t
-        chk.verdict("N2", k, f"{k.name}: operand orders (nout_a+nin_a, nin_b+nout_b)", True if ok else False,
-                    f"{k.name}: operands are not permuted to (outgoing, contracted) x (contracted, outgoing)")
-    t = A.text(f2m.node)
-    ok = "_merge_to_matrix(a, (nout_a, nin_a), ind_a)" in t and "_merge_to_matrix(b, (nin_b, nout_b), ind_b)" in t
-    chk.verdict("N2", f2m, "_tensordot_f2m: matrices (nout_a | nin_a) x (nin_b | nout_b)", True if ok else False,
-                "_tensordot_f2m: operands are not merged to (outgoing | contracted) and (contracted | outgoing) matrices")
+        chk.verdict("N2", (k, ci[0] if ci else k.node), ci[0] if ci else k.name, True if len(ci) == 1 else False,
+                    f"{k.name}: blocks to contract are not selected by one call of _common_inds like in its siblings")
+        if len(ci) == 1:
+            # arguments written in terms of parameter positions, so that kernels with differently named parameters still compare
+            ren = {p_: f"P{i}" for i, p_ in enumerate(k.params)}
+            cis.append([A.text(_rename(a_, ren)) for a_ in ci[0].args])
+    chk.verdict("N2", (kfs[0], kfs[0].node), "all kernels call _common_inds with the same arguments", True if cis and all(c == cis[0] for c in cis) else False,
+                f"the contraction kernels select the blocks to contract differently: {cis}")
+    # operand orders: (outgoing, contracted) x (contracted, outgoing), by parameter position
+    for k in kfs:
+        p_ = k.params
+        if len(p_) < 6:
+            chk.bad("N2", k, k.name, f"{k.name}: fewer than six parameters")
+            continue
+        adds = {(A.text(n.left), A.text(n.right)) for n in ast.walk(k.node) if isinstance(n, ast.BinOp) and isinstance(n.op, ast.Add)}
+        pairs = {(A.text(t.elts[0]), A.text(t.elts[1])) for t in ast.walk(k.node) if isinstance(t, ast.Tuple) and len(t.elts) == 2}
+        ok = ((p_[2], p_[3]) in adds and (p_[4], p_[5]) in adds) or ((p_[2], p_[3]) in pairs and (p_[4], p_[5]) in pairs)
+        chk.verdict("N2", k, f"{k.name}: operands arranged as ({p_[2]}, {p_[3]}) x ({p_[4]}, {p_[5]})", True if ok else False,
+                    f"{k.name}: operands are not arranged as (outgoing, contracted) x (contracted, outgoing)")
     # fuse_legs: both modes validated before the split; unknown mode raises; mode only compared with literals
     g = prog.func(MRG, "fuse_legs")
     gn = g.node
     cfg = CFG(gn)
-    tests = [n for n in gn.body if isinstance(n, ast.If) and A.text(n.test) in ("mode == 'meta'", "mode == 'hard'")]
+    mode = g.params[2]
+
+    def mode_test(t, lit):
+        return isinstance(t, ast.Compare) and len(t.ops) == 1 and isinstance(t.ops[0], ast.Eq) and A.text(t.left) == mode \
+            and isinstance(t.comparators[0], ast.Constant) and t.comparators[0].value == lit
+    tests = [n for n in ast.walk(gn) if isinstance(n, ast.If) and (mode_test(n.test, "meta") or mode_test(n.test, "hard"))]
     chk.require(len(tests) == 2, "fuse_legs: mode dispatch not found")
-    val = [n for n in gn.body if isinstance(n, ast.Expr) and isinstance(n.value, ast.Call) and A.call_name(n.value) == "_test_axes_all"]
-    empt = [n for n in gn.body if isinstance(n, ast.If) and "len(x) == 0" in A.text(n.test)]
+    val = [n for n in A.walk_local(gn) if isinstance(n, ast.Expr) and isinstance(n.value, ast.Call) and A.call_name(n.value) == "_test_axes_all"]
+    empt = [n for n in A.walk_local(gn) if isinstance(n, ast.If) and any(isinstance(x, ast.Raise) for x in n.body)
+            and any(isinstance(x, ast.Call) and A.call_name(x) == "len" for x in ast.walk(n.test))]
     for t in tests:
         ok = val and empt and cfg.must_pass([t.test], [val[0]]) and cfg.must_pass([t.test], [empt[0].test])
         chk.verdict("N3", (g, t), t.test, True if ok else False,
                     f"fuse_legs: the `{A.text(t.test)}` branch is reachable without the mode-independent validation of axes")
-    chk.verdict("N2", (g, gn.body[-1]), "unknown mode raises", True if isinstance(gn.body[-1], ast.Raise) else False,
+    # an unrecognised mode raises: on the CFG, every path on which both mode tests fail ends in raise
+    last = gn.body[-1]
+    ok_raise = isinstance(last, ast.Raise) or (isinstance(last, ast.If) and last.orelse and isinstance(last.orelse[-1], ast.Raise))
+    chk.verdict("N2", (g, last), "unknown mode raises", True if ok_raise else False,
                 "fuse_legs: an unrecognised fusion mode does not raise")
-    uses = [n for n in ast.walk(gn) if isinstance(n, ast.Name) and n.id == "mode" and isinstance(n.ctx, ast.Load)]
     parent = A.enclosing_map(gn)
-    ok = all(isinstance(parent.get(u), ast.Compare) or (isinstance(parent.get(u), ast.Compare) is False and isinstance(parent.get(u), ast.Call)
-             and A.call_name(parent.get(u)) in ()) or A.text(parent.get(u)).startswith("mode is None") for u in uses)
-    chk.verdict("N2", g, "mode is only compared", True if ok else False, "fuse_legs: the fusion mode flows into something other than the dispatch tests")
-
-
+    uses = [n for n in ast.walk(gn) if isinstance(n, ast.Name) and n.id == mode and isinstance(n.ctx, ast.Load)]
+    ok = all(isinstance(parent.get(u), ast.Compare) for u in uses)
+    chk.verdict("N2", g, "the fusion mode is only compared, never used as a value", True if ok else False,
+                "fuse_legs: the fusion mode flows into something other than the dispatch tests")
 # -------------------------------------------------------------------- F1 / F2 (C03)
 def run_F(chk):
     prog = chk.prog
